@@ -209,11 +209,6 @@ func (s *scanner) processTail() (lexeme.LexEvent, error) {
 	case lexeme.InlineAnnotationTextBegin:
 		return s.processingFoundLexeme(lexeme.InlineAnnotationTextEnd)
 
-	case lexeme.MultiLineAnnotationBegin:
-		return s.processingFoundLexeme(lexeme.MultiLineAnnotationEnd)
-
-	case lexeme.MultiLineAnnotationTextBegin:
-		return s.processingFoundLexeme(lexeme.MultiLineAnnotationTextEnd)
 	}
 
 	err := kit.NewJSchemaError(s.file, errs.ErrUnexpectedEOF.F())
